@@ -93,6 +93,31 @@ NOT_YET = {}
 
 REASON_WIP = "runtime monitor designed (DESIGN.md section 6) but its check is not built yet in this session; not claimed"
 
+# families added while closing the misses of the seeded rounds (DESIGN.md 13.6)
+ADDED = {
+ "C01": " Also: histories in which the application empties a whole DBI, a capture oracle after every SendOnce (application DBI = live entries, the rest markers), an MDB_INTEGERKEY DBI in every third history, and real loops in which the newest write lands at each of 8 yield points of the writer's own loop followed by silence.",
+ "C02": " Also: format version per entry (mixed producers), DBI messages that repeat a key (merged in listing order, into empty and non-empty DBIs).",
+ "C03": " Also: stale-marker-only merges with the sweeper cutoff on, a DBI emptied by the application, a receive-only instance with a local application, and restarts with commits made while the syncer was down or starting.",
+ "C04": " Also: stale markers meeting an older live version (must delete it), snapshots taken 2%/50% of the retention ago, fractional retentions and the survival of young local markers through the sweep.",
+ "C06": " Also: operator-style instance names, a non-UTC local time zone, and every cancellation position of SendOnce (a context that turns cancelled at its n-th inspection): whatever is uploaded is a complete image.",
+ "C07": " Also: name/transform lengths across the 1-, 2- and 3-byte length varint boundaries, independently.",
+ "C08": " Also: a real Sync whose OWN newest snapshot is undecodable (older valid one present, retries faster than the storage poll): the older one is merged and the instance keeps uploading; one watchdog per hostile input.",
+ "C09": " Also: the restart family (commits while the syncer was down or starting must be in the newest own snapshot once idle) and stale-marker-only merges.",
+ "C10": " Also: dupsort fleets, applications creating empty DBIs (also in an idle fleet), and the exact forced-interval clause (a snapshot without local change starts more than the interval after the previous Store returned; slow-Store fleets).",
+ "C11": " Also: loop-protocol mode (transaction ids carried as syncLoop does), window mode (sweeper cutoff on, stale-marker-only loads, application commits made from the yield point inside a step) and a future-stamp family judged only by the model-free invariant application DBIs = live entries of the timestamped state.",
+ "C12": " Also: a two-phase forced-cleaner scenario with a real Syncer (newer snapshot of a stale instance merged without re-publication).",
+ "C13": " Also: byte-identical bulk markers around slice boundaries, an exact bracket of the pass's cutoff ([t0, end of first slice]) with a ladder of markers that expire during the pass, stamps >= 2^63, and a retention reaching back before 1970.",
+ "C14": " Also: deleted snapshot entries that still carry a payload (stored as header-only markers) and arbitrary byte strings as STORED values through the real Merge and Clean (rejected by the documented format <=> refused with an error).",
+ "C15": " Also: whatever ParseName accepts is exactly the name rebuilt from its components and has a registered extension after its first dot; a real cleaner next to databases whose names extend or shorten its own; several snapshots within one second.",
+ "C16": " Also: an instance that vanishes and reappears while its downloader is parked at its existing log call.",
+ "C17": " Also: cancellation while a failing Store is retried forever, undecodable blobs arriving during fleets, a storage handle set 10 s late; wedge verdicts come from goroutine states and logical progress, not from wall-clock deadlines.",
+ "C19": " Also: zero-length stored values.",
+}
+NOTE_OVERRIDE = {
+ "C11": "Model-based families: remote timestamps lie in the past of the local clock (documented shared-clock premise), no ties. The future-stamp family asserts only the projection invariant. Sweeper off except in window mode (enabled, never runs).",
+}
+
+
 def main():
     ids = ["C%02d" % i for i in range(1, 21)]
     checks = []
@@ -100,6 +125,8 @@ def main():
         if pid not in CHECKS:
             continue
         cat, tech, text, note, ref = CHECKS[pid]
+        text += ADDED.get(pid, "")
+        note = NOTE_OVERRIDE.get(pid, note)
         checks.append({
             "property_id": pid,
             "quick_cmd": "./check %s quick" % pid,
@@ -128,8 +155,6 @@ def main():
         "not_applicable": na,
         "notes": "All checks are runtime monitors over executions of the real code (DESIGN.md). ./check <id> <quick|thorough> rebuilds the worker from /repo's working tree with -tags verif; VERIF_SEED selects the seeded part of the case list. known_findings.txt lists open findings (printed as KNOWN-FINDING) and fixed ones.",
     }
-    if not na:
-        del m["not_applicable"]
     json.dump(m, open(os.path.join(ROOT, "MANIFEST.json"), "w"), indent=1)
     print("manifest: %d checks, %d not claimed" % (len(checks), len(na)))
 
